@@ -47,7 +47,10 @@ THEOREMS = ["JanetModel.Props.C20." + t for t in (
     "connect_fail_double_close", "os_execute_check_detects",
     # full subprocess-handle lifecycle (session 3)
     "child_sites_match", "child_step_inv", "child_run_inv", "no_zombie_accumulates", "outstanding_wait_completes",
-    "kill_in_callback_window_hits_reaped_pid")]
+    "kill_in_callback_window_hits_reaped_pid",
+    # session 4: the self pipe (edge-triggered registration, draining handler): nothing written by another thread is ever stranded
+    "selfpipe_cfg_drains", "selfpipe_handle_conserve", "selfpipe_handle_drains", "selfpipe_conservation", "selfpipe_no_event_stranded",
+    "selfpipe_all_delivered_after_poll", "selfpipe_gen_no_event_stranded", "bounded_read_strands_events")]
 
 ENV = dict(os.environ, ASAN_OPTIONS="detect_leaks=0:abort_on_error=0", UBSAN_OPTIONS="print_stacktrace=1")
 SCRATCH = "/var/tmp/janet-verif-c20"
@@ -91,6 +94,9 @@ def run_script(hx, src, tag, args=(), timeout=3000, watchdog=1200):
 
 # ------------------------------------------------------------------------------------------------ cycles
 
+# logical hang criteria printed by the harness right before the loop would block for ever (harness/C20/c20loop.c, epoll_wait hook)
+HANG_TAGS = ("IDLE-NOT-DONE", "STALE-TIMERS-BLOCK", "NO-WAKE-SOURCE", "SELFPIPE-STRANDED")
+
 def judge_cycle(name, n, rc, out, err, metrics=None):
     """-> (verdict dict)  verdict['leaks'] = {metric: (p1, p2)}; verdict['fail'] = text if the run itself failed"""
     ms = {}
@@ -100,8 +106,7 @@ def judge_cycle(name, n, rc, out, err, metrics=None):
             ms[f[1]] = _kv(f[2:])
     v = {"name": name, "N": n, "measures": ms, "leaks": {}, "fail": None}
     if rc != 0 or "RETURNED" not in out or len(ms) < 3:
-        why = ("hang: " + [l for l in out.splitlines() if l.startswith(("IDLE-NOT-DONE", "STALE-TIMERS-BLOCK", "NO-WAKE-SOURCE"))][0]) if (
-            "IDLE-NOT-DONE" in out or "STALE-TIMERS-BLOCK" in out or "NO-WAKE-SOURCE" in out) else (
+        why = ("hang: " + [l for l in out.splitlines() if l.startswith(HANG_TAGS)][0]) if any(t in out for t in HANG_TAGS) else (
             "watchdog: event loop did not return" if "WATCHDOG" in out else ("timeout" if rc is None else "rc=%s" % rc))
         errs = [l.strip() for l in err.splitlines() if l.startswith("error:") or "AddressSanitizer" in l or "runtime error" in l]
         if errs:
@@ -168,7 +173,12 @@ def judge_mix(expect, chosen, rc, out, err):
             probs.append(("roots-unbalanced-at-exit",
                           "gc root count %s at loop return, %s before the program started" % (returned.get("roots"), steps[0][2].get("roots"))))
     else:
-        if "NO-WAKE-SOURCE" in out:
+        if "SELFPIPE-STRANDED" in out:
+            probs.append(("hang-events-stranded-in-self-pipe" + ("" if missing else ":all-completions-logged"),
+                          "completions posted by other threads were left in the (edge-triggered) self pipe when its handler returned and nothing "
+                          "can wake the loop again: %s; tasks not completed: %s (%s)"
+                          % ([l for l in out.splitlines() if l.startswith("SELFPIPE-STRANDED")][:1], missing, sorted(set(chosen[k] for k in missing)))))
+        elif "NO-WAKE-SOURCE" in out:
             probs.append(("stuck-no-wake-source:" + ",".join(sorted(set(chosen[k] for k in missing))),
                           "task(s) %s (%s) can never complete: the loop blocks with nothing that could wake it (%s)"
                           % (missing, [chosen[k] for k in missing], [l for l in out.splitlines() if l.startswith("NO-WAKE-SOURCE")][:1])))
@@ -193,6 +203,10 @@ def judge_mix(expect, chosen, rc, out, err):
         if s["lc"] != gt:
             probs.append(("counter-vs-truth", "step %d (%s): listener_count=%d but suspended=%d + listening=%d + in-pipe=%d + helper-threads=%d = %d"
                           % (n, tag, s["lc"], s["susp"], s["lis"], s["inpipe"], s["calls"], gt)))
+            break
+        if "pw" in s and s["pw"] - s["pd"] != s["inpipe"]:
+            probs.append(("selfpipe-conservation", "step %d: %d events written to the self pipe, %d read by the loop, yet %d are in the pipe"
+                          % (n, s["pw"], s["pd"], s["inpipe"])))
             break
         idle = gt == 0 and s["tq"] == 0 and s["rq"] == 0
         if bool(s["done"]) != idle:
@@ -261,6 +275,10 @@ def model_lines(out):
             lines.append("%s %s %s" % (k, f[2][1:], "d" if f[3] == "deadline" else "t"))
         elif k == "sclose":
             lines.append("sclose " + f[2])
+        elif k == "sigaction":
+            lines.append("sigaction %s %s" % (f[2], f[3]))
+        elif k == "op":
+            lines.append("op " + f[2])
         elif k in ("step", "poll", "run"):
             pass
         else:
@@ -281,6 +299,8 @@ def compare_model(lines, snaps, mout):
         m = _kv(mout[idx].split())
         exp = {"lc": s["lc"], "tq": s["tq"], "rq": s["rq"], "roots": s["roots"] - roots0, "susp": s["susp"], "lis": s["lis"],
                "pipecalls": s["inpipe"] + s["calls"], "done": s["done"], "orphan": s.get("lisclosed", 0)}
+        if "sigh" in s:
+            exp["sigh"] = s["sigh"]
         bad = {k: (m.get(k), v) for k, v in exp.items() if m.get(k) != v}
         if bad:
             diffs.append("step %d (%s): (model, implementation) differ in %s" % (n, tag, bad))
